@@ -193,9 +193,18 @@ def to_float(e):
     return float(e)
 
 
-def export_scalar(el):
+def scale_el(e, k):
+    """the element with every coordinate multiplied by the integer k"""
+    if e is None or k == 1:
+        return e
+    if isinstance(e, (list, tuple)):
+        return [scale_el(x, k) for x in e]
+    return e * k
+
+
+def export_scalar(el, scale=1):
     """(nbuf, listarr) of a GeometryList scalar's own listarray (one nesting level less
-    than its array class; NullArray for an empty element)"""
+    than its array class; NullArray for an empty element); coordinates times `scale`"""
     la = el.listarray
     bufs = la.buffers()
     nbuf = len(bufs)
@@ -217,7 +226,7 @@ def export_scalar(el):
         need = int(o[-1]) if o else 0
     vb = bufs[-1]
     vals = np.frombuffer(vb, dtype=dt) if vb is not None else np.array([], dtype=dt)
-    vals = [C.num(float(v)) for v in vals[:need]]
+    vals = [C.num(float(v) * scale) for v in vals[:need]]
     return C.Nat(nbuf), C.Rec('Build_listarr', C.Nat(off), C.Nat(n), None, trimmed, vals)
 
 
